@@ -118,6 +118,23 @@ def merge_cases(interp, base, cases, evar, fam, seg_guard, loop_id, nframe, pre_
                 if ev.kind in ("list.insert", "list.pop", "list.remove", "list.clear", "list.sort") and isinstance(ev.data.get("obj"), Ref) and ev.obj.oid <= pre_oid and ev.obj.oid in base.heap:
                     case.delta = [d for d in case.delta if not (d[0] == "list" and d[1] == ev.obj.oid)]
                     case.delta.append(("list.rewrite", ev.obj.oid, ()))
+    # a solver that exists outside the loop, keeps what an iteration asserts and is consulted inside the loop: the scope an
+    # iteration's test really has includes the assertions of all earlier iterations - made visible in the test's scope
+    growing = set()
+    for case in cases:
+        if case.sig[0] == "next":
+            for d in case.delta:
+                if d[0] == "solver" and d[1] <= pre_oid and (d[2]["frames"] or d[2]["soft"] or d[2]["extra"] > 0):
+                    growing.add(d[1])
+    if growing:
+        for case in cases:
+            for ev, Q in iter_events(case.events):
+                if ev.kind == "query" and isinstance(ev.data.get("obj"), Ref) and ev.obj.oid in growing:
+                    marker = ("sym", ("assertions of earlier iterations", loop_id))
+                    fr = tuple(ev.data["frames"])
+                    if not any(marker in f for f in fr):
+                        ev.data["frames"] = fr[:-1] + (tuple(fr[-1]) + (marker,),) if fr else ((marker,),)
+                        ev.data["accumulating"] = True
     for case in cases:
         if case.sig[0] != "next":
             exits.append(case)
